@@ -40,6 +40,7 @@ pub struct OpWeights {
     pub query: u32,
     pub finish: u32,
     pub dropgen: u32,
+    pub rebuild: u32,
 }
 
 impl Swarm {
@@ -179,7 +180,40 @@ pub fn valid_weights(r: &mut Rng, n: usize) -> Vec<f64> {
 
 /// a clearly invalid weight vector for n voices; returns (vector, kind)
 pub fn invalid_weights(r: &mut Rng, n: usize) -> Vec<f64> {
-    match r.below(5) {
+    match r.below(7) {
+        6 if n >= 2 => {
+            // large components that cancel: [B, (1+d)-B, 0, ...] with B = 2^k and d = +-2^-j chosen so that
+            // every value and the left-to-right sum 1+d are exact in f64 and |d| >= 1e-6. A tolerance that
+            // scales with the magnitude of the components would let this through.
+            let k = r.range(12, 44) as i32;
+            let j = r.range(4, (53 - k).min(19) as usize) as i32;
+            let b = 2f64.powi(k);
+            let d = 2f64.powi(-j) * if r.chance(0.5) { 1.0 } else { -1.0 };
+            let mut w = vec![0.0; n];
+            let p0 = r.below(n);
+            let p1 = (p0 + 1 + r.below(n - 1)) % n;
+            w[p0] = b;
+            w[p1] = (1.0 + d) - b;
+            let s: f64 = w.iter().sum();
+            if s == 1.0 + d && (s - 1.0).abs() >= 1.0e-6 {
+                w
+            } else {
+                let mut w = valid_weights(r, n);
+                w[0] += 0.5;
+                w
+            }
+        }
+        5 if n >= 1 => {
+            // an infinite component: the sum is +-inf, or NaN when two of them cancel
+            let mut w = valid_weights(r, n);
+            let k = r.below(n);
+            w[k] = if r.chance(0.5) { f64::INFINITY } else { f64::NEG_INFINITY };
+            if n >= 2 && r.chance(0.4) {
+                let k2 = (k + 1 + r.below(n - 1)) % n;
+                w[k2] = -w[k];
+            }
+            w
+        }
         0 => valid_weights(r, n + 1), // wrong length, good sum
         1 if n >= 2 => valid_weights(r, n - 1),
         1 => vec![],
@@ -277,6 +311,12 @@ pub fn make_utt(r: &mut Rng, corpus_len: usize, class: usize) -> Utt {
             }
         }
     }
+    if r.chance(0.2) {
+        // recombined labels (Env::line_text): same shape as corpus lines, fields mixed between lines
+        for l in lines.iter_mut() {
+            *l += (corpus_len * r.range(1, 40)) as u32;
+        }
+    }
     let timed = if r.chance(0.25) { *r.pick(&[1u32, 2, 4, 8]) } else { 0 };
     Utt { lines, timed }
 }
@@ -296,7 +336,14 @@ pub fn swarm(prop: Prop, r: &mut Rng, pools: &Pools, corpus_len: usize) -> Swarm
         let plain = r.chance(if prop == Prop::C20 { 0.6 } else { 0.85 });
         let (pool, base) = if plain { (&pools.plain_metas, 1000) } else { (&pools.metas, 0) };
         let idx = r.below(pool.len());
-        metas.push((pool[idx].clone(), base + idx));
+        let mut m = pool[idx].clone();
+        let mut key = base + idx;
+        if matches!(prop, Prop::C19 | Prop::C20) && m.nstreams == 3 && r.chance(0.12) {
+            // voices with 4..6 streams: per-stream settings and weights exist for every stream index
+            m.nstreams = r.range(4, 6);
+            key += 100_000 * m.nstreams;
+        }
+        metas.push((m, key));
     }
     let bodies: Vec<u64> = (0..4).map(|k| k as u64).collect();
     let nutt = r.range(1, 4);
@@ -324,6 +371,15 @@ pub fn swarm(prop: Prop, r: &mut Rng, pools: &Pools, corpus_len: usize) -> Swarm
                 rev.lines.reverse();
                 utts.push(rev);
             }
+            if r.chance(0.3) {
+                // same labels, other time stamps (only the alignment differs)
+                let mut ret = base.clone();
+                ret.timed = *r.pick(&[1u32, 2, 4, 8, 0]);
+                if ret.timed == base.timed {
+                    ret.timed = if base.timed == 3 { 5 } else { 3 };
+                }
+                utts.push(ret);
+            }
         }
     }
     let mut w = OpWeights::default();
@@ -339,6 +395,7 @@ pub fn swarm(prop: Prop, r: &mut Rng, pools: &Pools, corpus_len: usize) -> Swarm
             w.clone = if profile == "clone_heavy" { 15 } else { 3 };
             w.clone_from = if profile == "clone_heavy" { 8 } else { 2 };
             w.reload = 2;
+            w.rebuild = 3;
             w.dropengine = 1;
             w.setw_valid = 2;
             nops = r.range(10, 60);
@@ -354,6 +411,7 @@ pub fn swarm(prop: Prop, r: &mut Rng, pools: &Pools, corpus_len: usize) -> Swarm
             w.clone = 3;
             w.clone_from = 2;
             w.reload = 3;
+            w.rebuild = 2;
             w.set = 3;
             w.dropengine = 1;
             nops = r.range(8, 40);
@@ -392,6 +450,7 @@ pub fn swarm(prop: Prop, r: &mut Rng, pools: &Pools, corpus_len: usize) -> Swarm
             w.newgen = if profile == "generators" { 10 } else { 3 };
             w.step = if profile == "generators" { 60 } else { 20 };
             w.dropgen = 1;
+            w.rebuild = 2;
             nops = r.range(10, 60);
             max_voices = 2;
         }
@@ -400,7 +459,9 @@ pub fn swarm(prop: Prop, r: &mut Rng, pools: &Pools, corpus_len: usize) -> Swarm
     // block sizes and tables sized for "typical" utterances are crossed
     let mut prelude: Vec<TOp> = Vec::new();
     if matches!(prop, Prop::C02 | Prop::C03) && !heavy && r.chance(0.008) {
-        let n = r.range(80, 120);
+        // a quarter of them extra long (up to ~25 k frames): thresholds at 2^12, 2^13, 2^14 frames
+        let extra_long = r.chance(0.25);
+        let n = if extra_long { r.range(200, 320) } else { r.range(80, 120) };
         let start = r.below(corpus_len - n);
         let long = Utt { lines: (start..start + n).map(|x| x as u32).collect(), timed: 0 };
         let mi = 0;
@@ -410,7 +471,8 @@ pub fn swarm(prop: Prop, r: &mut Rng, pools: &Pools, corpus_len: usize) -> Swarm
         prelude.push(TOp { task: 0, op: Op::Set { e: 0, s: Setter::Fperiod(*r.pick(&[60, 80, 120, 240, 480])) } });
         if prop == Prop::C02 {
             prelude.push(TOp { task: 0, op: Op::NewGen { e: 0, g: 0, utt: long.clone() } });
-            prelude.push(TOp { task: 0, op: Op::Drain { g: 0, max: *r.pick(&[1023, 1024, 1100, 2500]) } });
+            let max = if extra_long { *r.pick(&[4095, 4096, 4097, 8191, 8192, 8193, 9000, 16384, 16385]) } else { *r.pick(&[1023, 1024, 1100, 2500, 4096, 4097]) };
+            prelude.push(TOp { task: 0, op: Op::Drain { g: 0, max } });
             prelude.push(TOp { task: 0, op: Op::Query { g: 0 } });
             prelude.push(TOp { task: 1, op: Op::Finish { g: 0 } });
             // a second and third generator of the same engine, started while the first is far ahead,
@@ -439,7 +501,7 @@ pub fn swarm(prop: Prop, r: &mut Rng, pools: &Pools, corpus_len: usize) -> Swarm
     let mut marathon = false;
     if matches!(prop, Prop::C02 | Prop::C03) && !heavy && prelude.is_empty() && r.chance(if prop == Prop::C03 { 0.004 } else { 0.0012 }) {
         marathon = true;
-        let n = *r.pick(&[150usize, 300, 700, 1500, 3000]);
+        let n = *r.pick(&[150usize, 300, 700, 1500, 3000, 6000, 12000]);
         let mi = 0;
         let v = VoiceRef::Gen(VoiceSpec { meta: metas[mi].0.clone(), body: pools.body(metas[mi].1, 0) });
         let v2 = VoiceRef::Gen(VoiceSpec { meta: metas[mi].0.clone(), body: pools.body(metas[mi].1, 1) });
@@ -453,9 +515,12 @@ pub fn swarm(prop: Prop, r: &mut Rng, pools: &Pools, corpus_len: usize) -> Swarm
         let stride = *r.pick(&[1usize, 7, 31]);
         let pool: Vec<Utt> = (0..n)
             .map(|i| {
-                let mut lines = vec![((start + i * stride) % corpus_len) as u32];
+                // beyond the first 64, labels are recombinations of corpus lines (Env::line_text), so the
+                // number of distinct label strings one process sees is not bounded by the corpus
+                let v = i / 64;
+                let mut lines = vec![((start + i * stride) % corpus_len + corpus_len * v) as u32];
                 if r.chance(0.3) {
-                    lines.push(r.below(corpus_len) as u32);
+                    lines.push((r.below(corpus_len) + corpus_len * r.below(v + 1)) as u32);
                 }
                 Utt { lines, timed: 0 }
             })
@@ -634,6 +699,7 @@ impl Gen {
             if has_g { w.dropgen } else { 0 },
             w.clone_from,
             w.reload,
+            w.rebuild,
         ];
         let k = self.r.weighted(&weights);
         let e = *self.r.pick(&occupied_e);
@@ -773,6 +839,7 @@ impl Gen {
                 Op::CloneFrom { src: e, dst }
             }
             16 => Op::Reload { e, voices: self.voices_for_load() },
+            17 => Op::Rebuild { e, how: self.r.below(3) as u8 },
             _ => Op::DropGen { g: *self.r.pick(&occupied_g) },
         };
         TOp { task, op }
